@@ -3,9 +3,12 @@ package verifharness
 import (
 	"bytes"
 	"fmt"
+	"runtime"
 	"runtime/debug"
 	"sort"
 	"strings"
+	"sync"
+	"sync/atomic"
 
 	g "github.com/cbehopkins/gkvlite"
 )
@@ -258,15 +261,57 @@ func concurrentPhase(w *World, c Case) (viol *Violation) {
 	logStart := len(w.file.Log)
 	apiOf := make([]int, 8)
 	nextAPI := 1 << 20
-	s := &coop{sched: c.Cfg.Sched}
-	s.onResume = func(id int) {
-		if id < len(apiOf) {
-			w.file.CurAPI = apiOf[id]
-		}
+	// par: the real-parallel engine (C05-par): the same workers as goroutines that
+	// really run side by side over a mutex-protected file; windows are taken from an
+	// atomic clock instead of the scheduler's tick.
+	par := c.Cfg.Profile == "C05-par"
+	rep := 1
+	if par && len(c.Cfg.Extra) > 0 && c.Cfg.Extra[0] > 1 {
+		rep = c.Cfg.Extra[0]
 	}
-	w.file.Yield = s.Yield
-	g.VerifYield = s.Yield
-	defer func() { g.VerifYield = nil; w.file.Yield = nil }()
+	s := &coop{sched: c.Cfg.Sched}
+	var clock int64
+	var mu sync.Mutex
+	now := func() int {
+		if par {
+			return int(atomic.AddInt64(&clock, 1))
+		}
+		return s.tick
+	}
+	yield := func(point string) {
+		if par {
+			runtime.Gosched()
+			return
+		}
+		s.Yield(point)
+	}
+	locked := func(f func()) {
+		if par {
+			mu.Lock()
+			defer mu.Unlock()
+		}
+		f()
+	}
+	if par {
+		w.file.Mu = &sync.Mutex{}
+		w.file.KeepLog = false
+		var n uint32
+		g.VerifYield = func(string) {
+			if atomic.AddUint32(&n, 1)%3 == 0 {
+				runtime.Gosched()
+			}
+		}
+		defer func() { g.VerifYield = nil }()
+	} else {
+		s.onResume = func(id int) {
+			if id < len(apiOf) {
+				w.file.CurAPI = apiOf[id]
+			}
+		}
+		w.file.Yield = s.Yield
+		g.VerifYield = s.Yield
+		defer func() { g.VerifYield = nil; w.file.Yield = nil }()
+	}
 
 	var reads []*readRec
 	var flushes []*flushRec
@@ -276,7 +321,8 @@ func concurrentPhase(w *World, c Case) (viol *Violation) {
 		return func() {
 			defer func() {
 				if r := recover(); r != nil {
-					panics = append(panics, fmt.Sprintf("worker %d panicked: %v\n%s", id, r, trimStack(debug.Stack())))
+					msg := fmt.Sprintf("worker %d panicked: %v\n%s", id, r, trimStack(debug.Stack()))
+					locked(func() { panics = append(panics, msg) })
 				}
 			}()
 			f()
@@ -293,38 +339,53 @@ func concurrentPhase(w *World, c Case) (viol *Violation) {
 		mutOps = c.Cfg.Workers[0]
 	}
 	workers = append(workers, guard(0, func() {
-		for i, op := range mutOps {
-			name, col := coll(op.C)
-			cur := vers[name][len(vers[name])-1]
-			t0 := s.tick
-			switch op.K {
-			case OpSet:
-				val := fmt.Sprintf("m%d", i)
-				err := col.SetItem(&g.Item{Key: append([]byte(nil), op.Key...), Val: []byte(val), Priority: op.Prio})
-				if err != nil {
-					mutErrs = append(mutErrs, fmt.Sprintf("mutator op %d %s: %v", i, op.String(), err))
+		for round := 0; round < rep; round++ {
+			for i, op := range mutOps {
+				if op.K == OpSetColl || op.K == OpRmColl {
+					// the mutating goroutine creates a further collection (a name never used
+					// before: existing handles are neither replaced nor removed) beside readers
+					// that look collections up for every call
+					st.SetCollection(fmt.Sprintf("c%d.%d", round, i), nil)
 					continue
 				}
-				ni := cloneItems(cur.items)
-				ni[string(op.Key)] = val
-				vers[name] = append(vers[name], version{items: ni, start: t0, end: s.tick})
-			case OpDel:
-				was, err := col.Delete(op.Key)
-				if err != nil {
-					mutErrs = append(mutErrs, fmt.Sprintf("mutator op %d %s: %v", i, op.String(), err))
-					continue
-				}
-				_, had := cur.items[string(op.Key)]
-				if was != had {
-					mutErrs = append(mutErrs, fmt.Sprintf("mutator op %d %s: wasDeleted=%v but the key was present=%v", i, op.String(), was, had))
-				}
-				if had {
+				name, col := coll(op.C)
+				cur := vers[name][len(vers[name])-1]
+				t0 := now()
+				switch op.K {
+				case OpSet:
+					val := fmt.Sprintf("m%d", i)
+					if rep > 1 {
+						val = fmt.Sprintf("m%d.%d", round, i)
+					}
+					err := col.SetItem(&g.Item{Key: append([]byte(nil), op.Key...), Val: []byte(val), Priority: op.Prio})
+					if err != nil {
+						msg := fmt.Sprintf("mutator op %d %s: %v", i, op.String(), err)
+						locked(func() { mutErrs = append(mutErrs, msg) })
+						continue
+					}
 					ni := cloneItems(cur.items)
-					delete(ni, string(op.Key))
-					vers[name] = append(vers[name], version{items: ni, start: t0, end: s.tick})
+					ni[string(op.Key)] = val
+					vers[name] = append(vers[name], version{items: ni, start: t0, end: now()})
+				case OpDel:
+					was, err := col.Delete(op.Key)
+					if err != nil {
+						msg := fmt.Sprintf("mutator op %d %s: %v", i, op.String(), err)
+						locked(func() { mutErrs = append(mutErrs, msg) })
+						continue
+					}
+					_, had := cur.items[string(op.Key)]
+					if was != had {
+						msg := fmt.Sprintf("mutator op %d %s: wasDeleted=%v but the key was present=%v", i, op.String(), was, had)
+						locked(func() { mutErrs = append(mutErrs, msg) })
+					}
+					if had {
+						ni := cloneItems(cur.items)
+						delete(ni, string(op.Key))
+						vers[name] = append(vers[name], version{items: ni, start: t0, end: now()})
+					}
+				case OpEvict:
+					col.EvictSomeItems()
 				}
-			case OpEvict:
-				col.EvictSomeItems()
 			}
 		}
 	}))
@@ -335,11 +396,14 @@ func concurrentPhase(w *World, c Case) (viol *Violation) {
 	}
 	workers = append(workers, guard(1, func() {
 		for i := 0; i < nFlush; i++ {
-			fr := &flushRec{s: s.tick}
+			fr := &flushRec{s: now()}
 			fr.err = st.Flush()
-			fr.e = s.tick
-			fr.img = w.file.Image() // captured atomically: no yield point in between
-			flushes = append(flushes, fr)
+			fr.e = now()
+			fr.img = w.file.Image() // only the flusher writes to the file: the image is what this Flush left
+			locked(func() { flushes = append(flushes, fr) })
+			if par {
+				runtime.Gosched()
+			}
 		}
 	}))
 	// workers 2..: readers
@@ -347,114 +411,148 @@ func concurrentPhase(w *World, c Case) (viol *Violation) {
 		wi := wi
 		ops := c.Cfg.Workers[wi]
 		workers = append(workers, guard(wi, func() {
-			for _, op := range ops {
-				name, col := coll(op.C)
-				r := &readRec{worker: wi, op: op, coll: name, s: s.tick}
-				nextAPI++
-				r.api = nextAPI
-				if wi < len(apiOf) {
-					apiOf[wi] = r.api
-				}
-				w.file.CurAPI = r.api
-				switch op.K {
-				case OpGetItem: // key-only lookup
-					r.keyOnly = true
-					it, err := col.GetItem(op.Key, false)
-					if err != nil {
-						r.errs = err.Error()
-					}
-					if it != nil {
-						r.present = true
-						r.key = append([]byte(nil), it.Key...)
-						r.prio = it.Priority
-						if it.Val != nil {
-							r.val = append([]byte{}, it.Val...)
+			for round := 0; round < rep; round++ {
+				for _, op := range ops {
+					name, col := coll(op.C)
+					r := &readRec{worker: wi, op: op, coll: name, s: now()}
+					if !par {
+						nextAPI++
+						r.api = nextAPI
+						if wi < len(apiOf) {
+							apiOf[wi] = r.api
 						}
+						w.file.CurAPI = r.api
 					}
-				case OpExist:
-					r.keyOnly = true
-					r.present = col.Exist(op.Key)
-				case OpGet:
-					val, err := col.Get(op.Key)
-					if err != nil {
-						r.errs = err.Error()
-					}
-					r.val, r.present = val, val != nil
-				case OpMin, OpMax:
-					var it *g.Item
-					var err error
-					if op.K == OpMin {
-						it, err = col.MinItem(true)
-					} else {
-						it, err = col.MaxItem(true)
-					}
-					if err != nil {
-						r.errs = err.Error()
-					}
-					if it != nil {
-						r.present = true
-						r.key = append([]byte(nil), it.Key...)
-						r.val = append([]byte(nil), it.Val...)
-					}
-				case OpTotals:
-					n, b, err := col.GetTotals()
-					if err != nil {
-						r.errs = err.Error()
-					}
-					r.n, r.b = n, b
-				case OpVisit:
-					vis := func(i *g.Item) bool {
-						r.seq = append(r.seq, kvp{k: append([]byte(nil), i.Key...), v: append([]byte(nil), i.Val...)})
-						s.Yield("visit")
-						return true
-					}
-					var err error
-					wv := op.N != 1 // N==1: a key-only visit
-					r.keyOnly = !wv
-					if op.Flag%2 == 0 {
-						err = col.VisitItemsAscend(op.Key, wv, vis)
-					} else {
-						err = col.VisitItemsDescend(op.Key, wv, vis)
-					}
-					if err != nil {
-						r.errs = err.Error()
-					}
-				case OpSnap:
-					sn := st.Snapshot()
-					r.e = s.tick // the window of a Snapshot is the Snapshot() call itself
-					r.snap = map[string][]kvp{}
-					for _, cn := range schedColls {
-						sc := sn.GetCollection(cn)
-						if sc == nil {
-							r.errs = "snapshot lacks collection " + cn
-							continue
-						}
-						var seq []kvp
-						err := sc.VisitItemsAscend([]byte{}, true, func(i *g.Item) bool {
-							seq = append(seq, kvp{k: append([]byte(nil), i.Key...), v: append([]byte(nil), i.Val...)})
-							s.Yield("visit")
-							return true
-						})
+					switch op.K {
+					case OpGetItem: // key-only lookup
+						r.keyOnly = true
+						it, err := col.GetItem(op.Key, false)
 						if err != nil {
 							r.errs = err.Error()
 						}
-						r.snap[cn] = seq
+						if it != nil {
+							r.present = true
+							r.key = append([]byte(nil), it.Key...)
+							r.prio = it.Priority
+							if it.Val != nil {
+								r.val = append([]byte{}, it.Val...)
+							}
+						}
+					case OpExist:
+						r.keyOnly = true
+						r.present = col.Exist(op.Key)
+					case OpGet:
+						val, err := col.Get(op.Key)
+						if err != nil {
+							r.errs = err.Error()
+						}
+						r.val, r.present = val, val != nil
+					case OpMin, OpMax:
+						var it *g.Item
+						var err error
+						if op.K == OpMin {
+							it, err = col.MinItem(true)
+						} else {
+							it, err = col.MaxItem(true)
+						}
+						if err != nil {
+							r.errs = err.Error()
+						}
+						if it != nil {
+							r.present = true
+							r.key = append([]byte(nil), it.Key...)
+							r.val = append([]byte(nil), it.Val...)
+						}
+					case OpTotals:
+						n, b, err := col.GetTotals()
+						if err != nil {
+							r.errs = err.Error()
+						}
+						r.n, r.b = n, b
+					case OpVisit:
+						vis := func(i *g.Item) bool {
+							r.seq = append(r.seq, kvp{k: append([]byte(nil), i.Key...), v: append([]byte(nil), i.Val...)})
+							if par {
+								// visitor callbacks may call read operations on the same store
+								switch (len(r.seq) + wi) % 4 {
+								case 0:
+									_ = col.AllocStats()
+								case 1:
+									_ = st.GetCollectionNames()
+								case 2:
+									st.Stats(map[string]uint64{})
+								}
+							}
+							yield("visit")
+							return true
+						}
+						var err error
+						wv := op.N != 1 // N==1: a key-only visit
+						r.keyOnly = !wv
+						if op.Flag%2 == 0 {
+							err = col.VisitItemsAscend(op.Key, wv, vis)
+						} else {
+							err = col.VisitItemsDescend(op.Key, wv, vis)
+						}
+						if err != nil {
+							r.errs = err.Error()
+						}
+					case OpSnap:
+						sn := st.Snapshot()
+						r.e = now() // the window of a Snapshot is the Snapshot() call itself
+						r.snap = map[string][]kvp{}
+						for _, cn := range schedColls {
+							sc := sn.GetCollection(cn)
+							if sc == nil {
+								r.errs = "snapshot lacks collection " + cn
+								continue
+							}
+							var seq []kvp
+							err := sc.VisitItemsAscend([]byte{}, true, func(i *g.Item) bool {
+								seq = append(seq, kvp{k: append([]byte(nil), i.Key...), v: append([]byte(nil), i.Val...)})
+								yield("visit")
+								return true
+							})
+							if err != nil {
+								r.errs = err.Error()
+							}
+							r.snap[cn] = seq
+						}
+						sn.Close()
 					}
-					sn.Close()
+					if op.K != OpSnap {
+						r.e = now()
+					}
+					if !par {
+						if wi < len(apiOf) {
+							apiOf[wi] = 0
+						}
+						w.file.CurAPI = 0
+					}
+					locked(func() { reads = append(reads, r) })
 				}
-				if op.K != OpSnap {
-					r.e = s.tick
-				}
-				if wi < len(apiOf) {
-					apiOf[wi] = 0
-				}
-				w.file.CurAPI = 0
-				reads = append(reads, r)
 			}
 		}))
 	}
 
-	s.run(workers)
+	if par {
+		var wg sync.WaitGroup
+		start := make(chan struct{})
+		for _, f := range workers {
+			wg.Add(1)
+			go func(f func()) {
+				defer wg.Done()
+				<-start
+				f()
+			}(f)
+		}
+		close(start)
+		wg.Wait()
+		w.file.Mu = nil
+		w.ev["par_runs"]++
+	} else {
+		s.run(workers)
+	}
 	w.ev["sched_switches"] = s.switches
 	w.ev["sched_yields"] = s.tick
 	for p, n := range s.points {
@@ -693,8 +791,23 @@ func seqKV(seq []kvp) string {
 	return "[" + strings.Join(p, " ") + "]"
 }
 
+// RunParLoop re-executes a real-parallel case until it fails or n runs passed
+// (a schedule-dependent failure cannot be replayed exactly; it is re-searched).
+func RunParLoop(c Case, n int) *Violation {
+	for i := 0; i < n; i++ {
+		if v, _ := RunSched(c); v != nil {
+			v.Msg = fmt.Sprintf("(real-parallel run %d of the saved case) %s", i+1, v.Msg)
+			return v
+		}
+	}
+	return nil
+}
+
 func init() {
 	replayers["C05"] = func(c Case) *Violation {
+		if c.Cfg.Profile == "C05-par" {
+			return RunParLoop(c, 400)
+		}
 		v, _ := RunSched(c)
 		return v
 	}
